@@ -281,20 +281,6 @@ example : intText (-9223372036854775808) = "-9223372036854775808".toList := by d
 
 /-! ## row count and row contents -/
 
-theorem mapE_length {α β ε : Type} (f : α → Except ε β) (l : List α) (r : List β) (h : mapE f l = .ok r) :
-    r.length = l.length := by
-  induction l generalizing r with
-  | nil => simp only [mapE, Except.ok.injEq] at h; subst h; rfl
-  | cons a as ih =>
-    unfold mapE at h
-    split at h
-    · exact absurd h (by simp)
-    · split at h
-      · exact absurd h (by simp)
-      · rename_i bs hbs
-        simp only [Except.ok.injEq] at h; subst h
-        simp [ih _ hbs]
-
 /-- **row count**: when the data writer succeeds it writes exactly one row per frame of the X axis channel. -/
 theorem rows_count {Obj : Type} [DecidableEq Obj] (chans : List (Chan Obj)) (S : List Obj) (red : Reduction)
     (w d : Nat) (rows : List (List Char)) (h : dataRows chans S red w d = .ok rows) :
@@ -306,35 +292,6 @@ theorem rows_count {Obj : Type} [DecidableEq Obj] (chans : List (Chan Obj)) (S :
 example : dataRows [({ ident := "DEPT", isInt := false, frames := [[1], [3 / 2]] } : Chan String),
     { ident := "N", isInt := true, frames := [[7, 9], [8, 11]] }] [] .max 6 1 =
     .ok ["   1.0      9".toList, "   1.5     11".toList] := by decide +kernel
-
-theorem mapE_cols {α : Type} (g : α → Except Err (List Char)) (idx : α → Nat) (l : List α) (r : List Col)
-    (h : mapE (fun a => (g a).map (fun t => ((idx a, t) : Col))) l = .ok r) :
-    r.map (·.1) = l.map idx ∧ ∀ p ∈ r, ∃ a ∈ l, g a = .ok p.2 := by
-  induction l generalizing r with
-  | nil => simp only [mapE, Except.ok.injEq] at h; subst h; simp
-  | cons a as ih =>
-    unfold mapE at h
-    split at h
-    · exact absurd h (by simp)
-    · rename_i b hb
-      split at h
-      · exact absurd h (by simp)
-      · rename_i bs hbs
-        simp only [Except.ok.injEq] at h; subst h
-        obtain ⟨h1, h2⟩ := ih _ hbs
-        cases hg : g a with
-        | error e => rw [hg] at hb; exact absurd hb (by simp [Except.map])
-        | ok t =>
-          rw [hg] at hb
-          simp only [Except.map, Except.ok.injEq] at hb
-          subst hb
-          refine ⟨by simp [h1], ?_⟩
-          intro p hp
-          simp only [List.mem_cons] at hp
-          rcases hp with rfl | hp
-          · exact ⟨a, by simp, hg⟩
-          · obtain ⟨a', ha', hga'⟩ := h2 p hp
-            exact ⟨a', by simp [ha'], hga'⟩
 
 /-- **row contents**: every row the data writer produces lists exactly the channels of `rowSel` (the same for every
 frame), and tokenises on blanks into one number text per listed channel. -/
@@ -379,18 +336,6 @@ example : dataRow [({ ident := "DEPT", isInt := false, frames := [[1], [3 / 2]] 
     .ok "1.500  0".toList := by decide +kernel
 
 /-! ## reductions -/
-
-theorem foldl_pick_mem (pick : Rat → Rat → Rat) (hp : ∀ a b, pick a b = a ∨ pick a b = b) (xs : List Rat) (a : Rat) :
-    xs.foldl pick a = a ∨ xs.foldl pick a ∈ xs := by
-  induction xs generalizing a with
-  | nil => left; rfl
-  | cons x xs ih =>
-    simp only [List.foldl_cons, List.mem_cons]
-    rcases ih (pick a x) with h | h
-    · rcases hp a x with h' | h'
-      · left; rw [h, h']
-      · right; left; rw [h, h']
-    · right; right; exact h
 
 /-- `first`, `min` and `max` return one of the values of the frame — so for an integer channel the reduced value is an
 integer and the exact `d` format applies (`mean`/`median` may not be integers and are printed with `.0f`). -/
